@@ -37,7 +37,7 @@ def cases(tier, seed):
     for i in range(n):
         mode = modes[int(rng.integers(0, len(modes)))]
         out.append({"mode": mode, "order": int(rng.choice([0, 1, 3])),
-                    "scale": float(rng.choice([1.0, 1.0, 0.5, 2.3])),
+                    "scale": float(rng.choice([1.0, 1.0, 0.5, 2.3, 0.25])),
                     "iseed": int(rng.integers(0, 2**31)), "cost": 3.0 if mode == "general" else 1.0})
     return out
 
@@ -218,7 +218,8 @@ def run(case):
     if mode == "proj":
         nm = int(rng.integers(1, 5))
         yx = (int(shape[1] + rng.integers(6, 14)), int(shape[2] + rng.integers(6, 14)))
-        pos = np.stack([rng.uniform(shape[0], shape[0] + 12, nm), rng.uniform(0, yx[0] - 1, nm),
+        zmax = float(rng.choice([12.0, 60.0, 160.0]))
+        pos = np.stack([rng.uniform(shape[0], shape[0] + zmax, nm), rng.uniform(0, yx[0] - 1, nm),
                         rng.uniform(0, yx[1] - 1, nm)], axis=1)
         R = Rotation.from_quat(np.stack([gen.random_rotation(rng).as_quat() for _ in range(nm)]))
         sim = TomogramSimulator(order=order, scale=scale).add_molecules(Molecules(pos * scale, R), tmpl)
